@@ -15,7 +15,9 @@ for meta in sorted(glob.glob(os.path.join(V, 'seeded', '*', 'meta.json'))):
     own = m['checks'][m['property']]
     caught = 'caught' if own['exit'] == 1 else ('INCONCLUSIVE' if own['exit'] == 2 else 'MISSED')
     if m.get('caught_after_strengthening'):
-        caught = 'caught after strengthening (%s)' % m['caught_after_strengthening']
+        caught = ('caught' if own['exit'] == 1 else 'NOT caught') + ' after strengthening (%s)' % m['caught_after_strengthening']
+    if m.get('verdict_note'):
+        caught = ('caught' if own['exit'] == 1 else 'silent') + ': ' + m['verdict_note']
     also = ', '.join(m.get('also_detected_by', []))
     first = re.sub(r'\s+', ' ', own.get('first_finding', ''))[:90].replace('|', '/')
     rows.append('| %s | %s | %s | %s%s |' % (name, notes.replace('|', '/'), caught, first, (' (also: %s)' % also) if also else ''))
